@@ -1,2 +1,127 @@
--- stub: replaced when the area is built
-def main : IO Unit := pure ()
+import Nstd.Common.Basic
+import Nstd.Args.Model
+/-
+  Line protocol of the Args area (property C20).  One op per line, one observation line per op.
+
+    reset                                   → ready
+    args <opts> <word>...                   → r <character>:<argument hex> ... end      (or ... LOOP / FAULT)
+         opts = `-` | `c.name.flags,...`  (c, flags decimal; name hex, `~` null pointer, `-` empty)
+    split <command line hex>                → s <n> <word hex>...
+    run <form> <streams> <env> <word>...    → x ok=1 pipes=<p> argv=<hex,...> env=<inherit|hex,...>
+         form = cmd | startcmd (one word: the text behind the executable) | argv | argvz | startargv |
+                startargvz | list ;  env = `-` | `khex=vhex,...`
+    io <streams> <n> <seed> <code>          → io ok=1 pipes=<p>
+    exit <code>                             → exit ok=1
+
+  The harness prints the same prefix followed by ` | <what the kernel delivered>`; that part is
+  judged by the Python reference only (the model stops at execvpe/pipe).
+-/
+open Nstd.Common
+namespace Nstd.Args
+
+def childName : Str := "CHILD".toList.map Char.toNat
+
+def parseOpt (t : String) : Option Opt :=
+  match t.splitOn "." with
+  | [c, n, f] => do
+    let ch ← c.toInt?
+    let fl ← f.toNat?
+    let nm ← if n == "~" then some none else (fromHex n).map (fun b => some (b ++ [0]))
+    pure { character := ch, name := nm, flags := fl }
+  | _ => none
+
+def parseOpts (t : String) : Option (List Opt) :=
+  if t == "-" then some [] else (t.splitOn ",").mapM parseOpt
+
+def runArgs (opts : List Opt) : Nat → St → String → String
+  | 0, _, acc => acc ++ " LOOP"
+  | f + 1, st, acc =>
+    match read opts st with
+    | none => "FAULT"
+    | some (none, _) => acc ++ " end"
+    | some (some (c, a), st') => runArgs opts f st' (acc ++ s!" {c}:{toHex a}")
+
+def lexLt : List Nat → List Nat → Bool
+  | [], [] => false
+  | [], _ :: _ => true
+  | _ :: _, [] => false
+  | a :: r, b :: s => if a < b then true else if b < a then false else lexLt r s
+
+/-- `Map<String, String>::insert` -/
+def mapInsert (k v : Str) : List (Str × Str) → List (Str × Str)
+  | [] => [(k, v)]
+  | (k', v') :: r =>
+    if lexLt k k' then (k, v) :: (k', v') :: r
+    else if k == k' then (k, v) :: r
+    else (k', v') :: mapInsert k v r
+
+def parseEnv (t : String) : Option (List (Str × Str)) :=
+  if t == "-" then some []
+  else do
+    let kvs ← (t.splitOn ",").mapM (fun e =>
+      match e.splitOn "=" with
+      | [k, v] => do pure ((← fromHex k), (← fromHex v))
+      | _ => none)
+    pure (kvs.foldl (fun m kv => mapInsert kv.1 kv.2 m) [])
+
+def showExec (e : Exec) : String :=
+  s!"x ok=1 pipes={e.pipes} argv={",".intercalate (e.argv.map toHex)} env=" ++
+    (match e.env with
+     | none => "inherit"
+     | some l => ",".intercalate (l.map toHex))
+
+def runOp (form : String) (streams : Nat) (env : List (Str × Str)) (ws : List Str) : Option String :=
+  let isStart := form.startsWith "start"
+  if isStart && streams != 0 then none
+  else
+    let r : Option (Option Exec) :=
+      match form, ws with
+      | "cmd", [rest] => some (openCommand (if rest.isEmpty then childName else childName ++ [32] ++ rest) streams env)
+      | "startcmd", [rest] => some (openCommand (if rest.isEmpty then childName else childName ++ [32] ++ rest) streams env)
+      | "list", _ => some (openList childName ws streams env)
+      | "argv", _ => some (openArgv childName ws.length (ws.map some) streams env)
+      | "startargv", _ => some (openArgv childName ws.length (ws.map some) streams env)
+      | "argvz", _ => some (openArgv childName (ws.length + 1) (ws.map some ++ [none]) streams env)
+      | "startargvz", _ => some (openArgv childName (ws.length + 1) (ws.map some ++ [none]) streams env)
+      | _, _ => none
+    match r with
+    | none => none
+    | some none => some "FAULT"
+    | some (some e) => some (showExec e)
+
+def stepLine (st : Unit) (ws : List String) : Unit × String :=
+  (st,
+    match ws with
+    | ["reset"] => "ready"
+    | "args" :: o :: words =>
+      match parseOpts o, words.mapM fromHex with
+      | some opts, some wl =>
+        let total := (wl.map (·.length + 1)).foldl (· + ·) 0
+        let argv : List Buf := ("prog".toList.map Char.toNat ++ [0]) :: wl.map (· ++ [0])
+        runArgs opts (2 * total + 8 + 1) (St.init argv) "r"
+      | _, _ => "bad-op"
+    | ["split", h] =>
+      match fromHex h with
+      | none => "bad-op"
+      | some s =>
+        match splitCommandLine (s ++ [0]) with
+        | .done cmd => s!"s {cmd.length}" ++ String.join (cmd.map (fun w => " " ++ toHex w))
+        | .fault => "FAULT"
+        | .fuel => "LOOP"
+    | "run" :: form :: streams :: env :: words =>
+      match streams.toNat?, parseEnv env, words.mapM fromHex with
+      | some s, some e, some wl => (runOp form s e wl).getD "bad-op"
+      | _, _, _ => "bad-op"
+    | ["io", streams, n, seed, code] =>
+      match streams.toNat?, n.toNat?, seed.toNat?, code.toNat? with
+      | some s, some _, some _, some _ => s!"io ok=1 pipes={s % 8}"
+      | _, _, _, _ => "bad-op"
+    | ["exit", code] =>
+      match code.toNat? with
+      | some _ => "exit ok=1"
+      | none => "bad-op"
+    | _ => "bad-op")
+
+end Nstd.Args
+
+def main : IO Unit := Nstd.Common.ioLoop () Nstd.Args.stepLine
